@@ -537,9 +537,19 @@ def rule_c04_who_writes(ctx):
                 if not inherited:
                     writers.append(b.short)
     writers = sorted(set(writers))
-    ctx.check(set(writers) == {"BodyWriter::write", "BodyWriter::consume_direct_write"}, R, "who-writes-remaining",
-              "the remaining request-body length is decremented only in the sized writer and the direct-write accounting",
-              detail=writers, bad_desc="unexpected writer(s) of the remaining request-body length: %s" % writers)
+    # which public calls can reach a store to the remaining length (wherever the store sits: writer, accounting, a helper)
+    from .panics import public_api, reachable_from
+    ALLOWED = {"Call::<WithBody, B>::write", "Call::<WithBody, B>::consume_direct_write", "Flow::<B, SendBody>::write",
+               "Flow::<B, SendBody>::consume_direct_write", "Flow::<B, SendRequest>::write"}
+    roots = set()
+    for w_ in writers:
+        wb = prog.find(w_)
+        for a_ in public_api(prog):
+            if wb is not None and wb.id in set(x.id for x in reachable_from(prog, [a_])):
+                roots.add(a_.short)
+    ctx.check(writers and roots and roots <= ALLOWED, R, "who-writes-remaining",
+              "the remaining request-body length is stored only in the course of a body write or a reported direct write (stores in: %s)" % ", ".join(writers),
+              detail=sorted(roots - ALLOWED), bad_desc="the remaining request-body length can be stored from: %s" % sorted(roots - ALLOWED))
 
 
 def rule_c08_close_marks_connection(ctx):
